@@ -247,6 +247,21 @@ func (e *sysEnv) sysStep(ctx *core.Context, op map[string]interface{}) map[strin
 			out = append(out, i)
 		}
 		return okR(out)
+	case "lastUpdated":
+		if _, err := s.GetLastUpdatedMem(ctx, name); err != nil {
+			return errR(err)
+		}
+		return okR(true)
+	case "locStats":
+		if _, err := s.GetLocationStats(ctx, name); err != nil {
+			return errR(err)
+		}
+		return okR(true)
+	case "clearLocStats":
+		if err := s.ClearLocationStats(ctx, name); err != nil {
+			return errR(err)
+		}
+		return okR(true)
 	case "getParents":
 		ps, err := s.GetParents(ctx, name)
 		if err != nil {
